@@ -31,6 +31,7 @@ properties! {
     "C08" => c08,
     "C10" => c10,
     "C11" => c11,
+    "C13" => c13,
     "C14" => c14,
     "C15" => c15,
     "C20" => c20,
